@@ -51,6 +51,12 @@ theorem Adv.facts {g g1 : RxG} (ha : g.Adv g1) (hw : g.Wf) :
       rw [hw.overPending ho]; simp
 
 
+theorem Adv.faulted {g g1 : RxG} (ha : g.Adv g1) : g1.faulted = g.faulted := by
+  obtain ⟨k, fin, _, rfl⟩ := ha
+  unfold arrive
+  dsimp only
+  split <;> rfl
+
 theorem take_facts (g : RxG) (n : Nat) (hn : n ≤ g.fifo.length) (hw : g.Wf) :
     (g.take n).Wf ∧ g.Same (g.take n) ∧ (g.take n).taken = g.taken ++ g.fifo.take n ∧
     (g.take n).fifo = g.fifo.drop n ∧ (g.take n).pending = g.pending ∧ (g.take n).over = g.over ∧
@@ -82,92 +88,126 @@ theorem Same.trans {a b c : RxG} (h1 : a.Same b) (h2 : b.Same c) : a.Same c :=
 theorem Same.live {g g1 : RxG} (h : g.Same g1) (hl : g.live) : g1.live := ⟨h.poison.trans hl.1, h.ended.trans hl.2⟩
 end RxG
 
-theorem rxR_live {g : RxG} (hl : g.live) (q a g') : rxE.R g q a g' ↔ (a.noErr ∧ rxRLive g q a g') := by
+/-- `g'` is `g` after arrivals and a failed transfer -/
+def RxG.AdvF (g g' : RxG) : Prop := ∃ g1, g.Adv g1 ∧ g' = { g1 with faulted := true }
+
+theorem rxR_live {g : RxG} (hl : g.live) (q a g') : rxE.R g q a g' ↔
+    ((a.noErr ∧ rxRLive g q a g') ∨ (¬a.noErr ∧ ¬FlushReq q ∧ g.AdvF g')) := by
   show rxR g q a g' ↔ _
   unfold rxR
   rw [if_neg (by simp [hl.1, hl.2])]
+  constructor
+  · rintro (h | ⟨h1, h2, k, fin, hadm, rfl⟩)
+    · exact Or.inl h
+    · exact Or.inr ⟨h1, h2, _, ⟨k, fin, hadm, rfl⟩, rfl⟩
+  · rintro (h | ⟨h1, h2, g1, ⟨k, fin, hadm, rfl⟩, rfl⟩)
+    · exact Or.inl h
+    · exact Or.inr ⟨h1, h2, k, fin, hadm, rfl⟩
+
+/-- a failed transfer: only the radio side has moved -/
+theorem rx_failed {g : RxG} (hl : g.live) (q : Req) (a : Ans) (g' : RxG) (hr : rxE.R g q a g') (he : ¬a.noErr) :
+    g.AdvF g' ∧ ¬FlushReq q := by
+  rw [rxR_live hl] at hr
+  rcases hr with ⟨hne, _⟩ | ⟨_, hnf, ha⟩
+  · exact absurd hne he
+  · exact ⟨ha, hnf⟩
 
 theorem rx_flags {g : RxG} (hl : g.live) (r g') (hr : rxE.R g (.rread Gen.REGIRQFLAGS2) (.u8 r) g') :
-    ∃ v g1, r = .ok v ∧ g.Adv g1 ∧ g' = { g1 with irq := v } ∧ RxFlagsOk v g1 := by
-  rw [rxR_live hl] at hr
-  obtain ⟨hne, k, fin, hadm, hm⟩ := hr
-  unfold rxAnswer at hm
+    (∃ c, r = .error c ∧ g.AdvF g') ∨ ∃ v g1, r = .ok v ∧ g.Adv g1 ∧ g' = { g1 with irq := v } ∧ RxFlagsOk v g1 := by
   cases r with
-  | error c => exact absurd hne id
+  | error c => exact Or.inl ⟨c, rfl, (rx_failed hl _ _ _ hr id).1⟩
   | ok v =>
-    simp only [show Gen.REGIRQFLAGS2 = 0x3f from rfl, ↓reduceIte] at hm
-    exact ⟨v, _, rfl, ⟨k, fin, hadm, rfl⟩, hm.1, hm.2⟩
+    rw [rxR_live hl] at hr
+    rcases hr with ⟨_, k, fin, hadm, hm⟩ | ⟨hne, _⟩
+    · unfold rxAnswer at hm
+      simp only [show Gen.REGIRQFLAGS2 = 0x3f from rfl, ↓reduceIte] at hm
+      exact Or.inr ⟨v, _, rfl, ⟨k, fin, hadm, rfl⟩, hm.1, hm.2⟩
+    · exact absurd trivial hne
 
 theorem rx_write3f {g : RxG} (hl : g.live) (v : UInt8) (r g') (hr : rxE.R g (.swrite Gen.REGIRQFLAGS2 [v]) (.unit r) g') :
-    ∃ g1, r = .ok () ∧ g.Adv g1 ∧ g' = if v &&& 0x10 ≠ 0 then g1.flush else g1 := by
-  rw [rxR_live hl] at hr
-  obtain ⟨hne, k, fin, hadm, hm⟩ := hr
-  unfold rxAnswer at hm
+    (∃ c, r = .error c ∧ v &&& 0x10 = 0 ∧ g.AdvF g') ∨ ∃ g1, r = .ok () ∧ g.Adv g1 ∧ g' = if v &&& 0x10 ≠ 0 then g1.flush else g1 := by
   cases r with
-  | error c => exact absurd hne id
+  | error c =>
+    obtain ⟨ha, hnf⟩ := rx_failed hl _ _ _ hr id
+    refine Or.inl ⟨c, rfl, ?_, ha⟩
+    by_cases hv : v &&& 0x10 = 0
+    · exact hv
+    · exact absurd ⟨rfl, hv⟩ hnf
   | ok u =>
-    simp only [show Gen.REGIRQFLAGS2 = 0x3f from rfl, List.length_singleton, and_self, ↓reduceIte, List.headD_cons] at hm
-    exact ⟨_, rfl, ⟨k, fin, hadm, rfl⟩, hm⟩
+    rw [rxR_live hl] at hr
+    rcases hr with ⟨_, k, fin, hadm, hm⟩ | ⟨hne, _⟩
+    · unfold rxAnswer at hm
+      simp only [show Gen.REGIRQFLAGS2 = 0x3f from rfl, List.length_singleton, and_self, ↓reduceIte, List.headD_cons] at hm
+      exact Or.inr ⟨_, rfl, ⟨k, fin, hadm, rfl⟩, hm⟩
+    · exact absurd trivial hne
 
 theorem rx_cfg {g : RxG} (hl : g.live) (reg : Nat) (r g') (hr : rxE.R g (.rread reg) (.u8 r) g') :
-    (reg = 0x30 → r = .ok g.cfg1 ∧ g.Adv g') ∧ (reg = 0x31 → r = .ok g.cfg2 ∧ g.Adv g') ∧ (reg = 0x32 → r = .ok g.plen ∧ g.Adv g') ∧
-    (reg = 0x3e ∨ reg = 0x11 → (∃ v, r = .ok v) ∧ g.Adv g') := by
-  rw [rxR_live hl] at hr
-  obtain ⟨hne, k, fin, hadm, hm⟩ := hr
-  unfold rxAnswer at hm
+    (∃ c, r = .error c ∧ g.AdvF g') ∨
+    ((reg = 0x30 → r = .ok g.cfg1 ∧ g.Adv g') ∧ (reg = 0x31 → r = .ok g.cfg2 ∧ g.Adv g') ∧ (reg = 0x32 → r = .ok g.plen ∧ g.Adv g') ∧
+    (reg = 0x3e ∨ reg = 0x11 → (∃ v, r = .ok v) ∧ g.Adv g')) := by
   cases r with
-  | error c => exact absurd hne id
+  | error c => exact Or.inl ⟨c, rfl, (rx_failed hl _ _ _ hr id).1⟩
   | ok v =>
-    refine ⟨?_, ?_, ?_, ?_⟩
-    · rintro rfl
-      simp only [show ¬((0x30:Nat) = 0x3f) by decide, show ¬((0x30:Nat) = 0) by decide, ↓reduceIte] at hm
-      exact ⟨by rw [hm.2], ⟨k, fin, hadm, hm.1⟩⟩
-    · rintro rfl
-      simp only [show ¬((0x31:Nat) = 0x3f) by decide, show ¬((0x31:Nat) = 0) by decide, show ¬((0x31:Nat) = 0x30) by decide, ↓reduceIte] at hm
-      exact ⟨by rw [hm.2], ⟨k, fin, hadm, hm.1⟩⟩
-    · rintro rfl
-      simp only [show ¬((0x32:Nat) = 0x3f) by decide, show ¬((0x32:Nat) = 0) by decide, show ¬((0x32:Nat) = 0x30) by decide,
-        show ¬((0x32:Nat) = 0x31) by decide, ↓reduceIte] at hm
-      exact ⟨by rw [hm.2], ⟨k, fin, hadm, hm.1⟩⟩
-    · rintro (rfl | rfl)
-      · simp only [show ¬((0x3e:Nat) = 0x3f) by decide, show ¬((0x3e:Nat) = 0) by decide, show ¬((0x3e:Nat) = 0x30) by decide,
-          show ¬((0x3e:Nat) = 0x31) by decide, show ¬((0x3e:Nat) = 0x32) by decide, true_or, ↓reduceIte] at hm
-        exact ⟨⟨v, rfl⟩, ⟨k, fin, hadm, hm⟩⟩
-      · simp only [show ¬((0x11:Nat) = 0x3f) by decide, show ¬((0x11:Nat) = 0) by decide, show ¬((0x11:Nat) = 0x30) by decide,
-          show ¬((0x11:Nat) = 0x31) by decide, show ¬((0x11:Nat) = 0x32) by decide, or_true, ↓reduceIte] at hm
-        exact ⟨⟨v, rfl⟩, ⟨k, fin, hadm, hm⟩⟩
+    right
+    rw [rxR_live hl] at hr
+    rcases hr with ⟨_, k, fin, hadm, hm⟩ | ⟨hne, _⟩
+    · unfold rxAnswer at hm
+      refine ⟨?_, ?_, ?_, ?_⟩
+      · rintro rfl
+        simp only [show ¬((0x30:Nat) = 0x3f) by decide, show ¬((0x30:Nat) = 0) by decide, ↓reduceIte] at hm
+        exact ⟨by rw [hm.2], ⟨k, fin, hadm, hm.1⟩⟩
+      · rintro rfl
+        simp only [show ¬((0x31:Nat) = 0x3f) by decide, show ¬((0x31:Nat) = 0) by decide, show ¬((0x31:Nat) = 0x30) by decide, ↓reduceIte] at hm
+        exact ⟨by rw [hm.2], ⟨k, fin, hadm, hm.1⟩⟩
+      · rintro rfl
+        simp only [show ¬((0x32:Nat) = 0x3f) by decide, show ¬((0x32:Nat) = 0) by decide, show ¬((0x32:Nat) = 0x30) by decide,
+          show ¬((0x32:Nat) = 0x31) by decide, ↓reduceIte] at hm
+        exact ⟨by rw [hm.2], ⟨k, fin, hadm, hm.1⟩⟩
+      · rintro (rfl | rfl)
+        · simp only [show ¬((0x3e:Nat) = 0x3f) by decide, show ¬((0x3e:Nat) = 0) by decide, show ¬((0x3e:Nat) = 0x30) by decide,
+            show ¬((0x3e:Nat) = 0x31) by decide, show ¬((0x3e:Nat) = 0x32) by decide, true_or, ↓reduceIte] at hm
+          exact ⟨⟨v, rfl⟩, ⟨k, fin, hadm, hm⟩⟩
+        · simp only [show ¬((0x11:Nat) = 0x3f) by decide, show ¬((0x11:Nat) = 0) by decide, show ¬((0x11:Nat) = 0x30) by decide,
+            show ¬((0x11:Nat) = 0x31) by decide, show ¬((0x11:Nat) = 0x32) by decide, or_true, ↓reduceIte] at hm
+          exact ⟨⟨v, rfl⟩, ⟨k, fin, hadm, hm⟩⟩
+    · exact absurd trivial hne
 
 theorem rx_write3e {g : RxG} (hl : g.live) (v : UInt8) (r g') (hr : rxE.R g (.swrite Gen.REGIRQFLAGS1 [v]) (.unit r) g') :
-    r = .ok () ∧ g.Adv g' := by
-  rw [rxR_live hl] at hr
-  obtain ⟨hne, k, fin, hadm, hm⟩ := hr
-  unfold rxAnswer at hm
+    (∃ c, r = .error c ∧ g.AdvF g') ∨ (r = .ok () ∧ g.Adv g') := by
   cases r with
-  | error c => exact absurd hne id
+  | error c => exact Or.inl ⟨c, rfl, (rx_failed hl _ _ _ hr id).1⟩
   | ok u =>
-    simp only [show Gen.REGIRQFLAGS1 = 0x3e from rfl, show ¬((0x3e:Nat) = 0x3f) by decide, List.length_singleton, and_self, and_true,
-      false_and, ↓reduceIte] at hm
-    exact ⟨rfl, ⟨k, fin, hadm, hm⟩⟩
+    rw [rxR_live hl] at hr
+    rcases hr with ⟨_, k, fin, hadm, hm⟩ | ⟨hne, _⟩
+    · unfold rxAnswer at hm
+      simp only [show Gen.REGIRQFLAGS1 = 0x3e from rfl, show ¬((0x3e:Nat) = 0x3f) by decide, List.length_singleton, and_self, and_true,
+        false_and, ↓reduceIte] at hm
+      exact Or.inr ⟨rfl, k, fin, hadm, hm⟩
+    · exact absurd trivial hne
 
 theorem rx_bread {g : RxG} (hl : g.live) (n : Nat) (r g') (hr : rxE.R g (.bread Gen.REGFIFO n) (.bytes r) g') :
+    (∃ c, r = .error c ∧ g.AdvF g') ∨
     ∃ d g1, r = .ok d ∧ g.Adv g1 ∧ g' = g1.take n ∧ d.length = n ∧ (n ≤ g1.fifo.length → d = g1.fifo.take n) := by
-  rw [rxR_live hl] at hr
-  obtain ⟨hne, k, fin, hadm, hm⟩ := hr
-  unfold rxAnswer at hm
   cases r with
-  | error c => exact absurd hne id
+  | error c => exact Or.inl ⟨c, rfl, (rx_failed hl _ _ _ hr id).1⟩
   | ok d =>
-    simp only [show Gen.REGFIFO = 0 from rfl, ↓reduceIte] at hm
-    exact ⟨d, _, rfl, ⟨k, fin, hadm, rfl⟩, hm.1, hm.2.1, hm.2.2⟩
+    rw [rxR_live hl] at hr
+    rcases hr with ⟨_, k, fin, hadm, hm⟩ | ⟨hne, _⟩
+    · unfold rxAnswer at hm
+      simp only [show Gen.REGFIFO = 0 from rfl, ↓reduceIte] at hm
+      exact Or.inr ⟨d, _, rfl, ⟨k, fin, hadm, rfl⟩, hm.1, hm.2.1, hm.2.2⟩
+    · exact absurd trivial hne
 
 theorem rx_rfifo {g : RxG} (hl : g.live) (r g') (hr : rxE.R g (.rread Gen.REGFIFO) (.u8 r) g') :
+    (∃ c, r = .error c ∧ g.AdvF g') ∨
     ∃ v g1, r = .ok v ∧ g.Adv g1 ∧ g' = g1.take 1 ∧ (1 ≤ g1.fifo.length → [v] = g1.fifo.take 1) := by
-  rw [rxR_live hl] at hr
-  obtain ⟨hne, k, fin, hadm, hm⟩ := hr
-  unfold rxAnswer at hm
   cases r with
-  | error c => exact absurd hne id
+  | error c => exact Or.inl ⟨c, rfl, (rx_failed hl _ _ _ hr id).1⟩
   | ok v =>
-    simp only [show Gen.REGFIFO = 0 from rfl, show ¬((0:Nat) = 0x3f) by decide, ↓reduceIte] at hm
-    exact ⟨v, _, rfl, ⟨k, fin, hadm, rfl⟩, hm.1, hm.2⟩
+    rw [rxR_live hl] at hr
+    rcases hr with ⟨_, k, fin, hadm, hm⟩ | ⟨hne, _⟩
+    · unfold rxAnswer at hm
+      simp only [show Gen.REGFIFO = 0 from rfl, show ¬((0:Nat) = 0x3f) by decide, ↓reduceIte] at hm
+      exact Or.inr ⟨v, _, rfl, ⟨k, fin, hadm, rfl⟩, hm.1, hm.2⟩
+    · exact absurd trivial hne
 end Sx
